@@ -19,7 +19,8 @@ COMBOS = [
     ('FP16/mmu', MMU, modes.MODES['FP16'][1]),   # refused for a specific op
     ('default/mmu', MMU, None),                  # default config
 ]
-COMBOS_T = COMBOS + [
+BLK = ('BLK8', MMU, modes.MODES['BLK8'][1])
+COMBOS_T = COMBOS + [BLK,
     ('WO8c', MMU, modes.MODES['WO8c'][1]),
     ('SRQ8a/fc', FCA, modes.MODES['SRQ8a'][1]),  # refused for a specific op
 ]
@@ -42,8 +43,8 @@ def load_recipes():
   ]
 
 
-def events(tier):
-  combos = COMBOS if tier == 'quick' else COMBOS_T
+def events(tier, blk=False):
+  combos = (COMBOS + ([BLK] if blk else [])) if tier == 'quick' else COMBOS_T
   ops = OPS_Q if tier == 'quick' else OPS_T
   ev = []
   for rg in REGEXES:
@@ -81,11 +82,28 @@ class Impl:
     self.qt = self.L.quantizer.Quantizer(b'not-a-model-the-recipe-api-never-'
                                          b'reads-it')
 
-  def cfg_obj(self, cfg):
+  def cfg_obj(self, cfg, enums=True):
+    """Config object as a Python user builds it: enum-valued fields (a JSON
+    recipe, by contrast, carries plain strings)."""
     if cfg is None:
       return None
-    return self.L.qtyping.OpQuantizationConfig.from_dict(
-        json.loads(json.dumps(cfg)))
+    q = self.L.qtyping
+    if not enums:
+      return q.OpQuantizationConfig.from_dict(json.loads(json.dumps(cfg)))
+
+    def tcfg(d):
+      return q.TensorQuantizationConfig(
+          num_bits=d['num_bits'], symmetric=d.get('symmetric', True),
+          granularity=q.QuantGranularity(d.get('granularity', 'TENSORWISE')),
+          dtype=q.TensorDataType(d.get('dtype', 'INT')),
+          block_size=d.get('block_size', 0))
+    a = cfg.get('activation_tensor_config')
+    return q.OpQuantizationConfig(
+        activation_tensor_config=tcfg(a) if a else None,
+        weight_tensor_config=tcfg(cfg['weight_tensor_config']),
+        compute_precision=q.ComputePrecision(cfg['compute_precision']),
+        explicit_dequantize=cfg['explicit_dequantize'],
+        skip_checks=cfg.get('skip_checks', False))
 
   def apply(self, ev):
     """Returns None, or the exception raised."""
@@ -93,7 +111,9 @@ class Impl:
       if ev['e'] == 'add':
         self.qt.update_quantization_recipe(
             ev['regex'], self.L.qtyping.TFLOperationName(ev['op']),
-            self.cfg_obj(ev['cfg']), ev['alg'])
+            self.cfg_obj(ev['cfg'], ev.get('enums', True)),
+            self.L.quantizer.AlgorithmName(ev['alg'])
+            if ev.get('enums', True) else ev['alg'])
       else:
         self.qt.load_quantization_recipe(copy.deepcopy(ev['recipe']))
     except Exception as e:  # pylint: disable=broad-except
@@ -194,6 +214,9 @@ def explore(first, depth, evs, visit, res, only=None):
     for i in hist[:-1]:
       impl.apply(evs[i])
       ref.apply(evs[i])
+      # resolve between the calls, on the same object: a stale cache inside
+      # the manager must show up in the final table
+      table(impl)
     before = impl.recipe()
     exc = impl.apply(evs[hist[-1]])
     refused = ref.apply(evs[hist[-1]])
